@@ -158,9 +158,15 @@ reg('C08',
     'organometallic, corpus stride). Query bonds: 21 bond primitives (orders, order lists, negations, ring/non-ring marks) against every bond. The '
     'expected answer is recomputed from raw atoms and bond orders only: degree, heteroatom count, hybridisation from orders, hydrogens from the '
     'element-table re-derivation, ring membership by bridges, ring sizes by an independent minimum cycle basis. Unsupported constructs and all token '
-    'strings of length <=3 over a 19-token SMARTS alphabet must be rejected with the invalid-SMARTS (ValueError) error or parse.',
+    'strings of length <=3 over a 19-token SMARTS alphabet must be rejected with the invalid-SMARTS (ValueError) error or parse. Stereo marks: tetrahedral '
+    'centre texts in all 24/6 neighbour orders x both marks x middle / first-atom / fragment forms, cis/trans texts x 6 bond primitives between the marks, allene '
+    'texts, and every (partly) labelled variant of 15 base molecules (ring-opening centres, fused rings, dienes, tri/tetra-substituted and ring double bonds) in '
+    'every RDKit spelling (every root x 3 numberings) are used as SMARTS against every variant as target; the mapping count must equal chirality-aware RDKit '
+    'matching of the SMILES reading of the same text.',
     'Trusted: vf/oracle/cycles.py, vf/oracle/valence.py and the hand-written non-metal list. Ring-size primitives are judged only on molecules whose '
-    'minimum cycle basis is unique (others counted as out of domain). Stereo marks in SMARTS are not covered by this check (C12 covers configuration).',
+    'minimum cycle basis is unique (others counted as out of domain). Stereo marks: RDKit is the judge; a chiral FIRST atom with an implicit hydrogen has no '
+    'documented convention in the SMARTS subset and is counted as out of domain; three-neighbour centres are read as "unnamed neighbour last"; allene marks are '
+    'judged relationally against the library SMILES reader (RDKit does not read them).',
     'bounded exhaustive enumeration of primitives and primitive pairs x atom/bond environments on the real implementation vs reference attributes',
     'DESIGN.md s5 C08')
 
